@@ -1,5 +1,6 @@
 CONSTANTS
   NSlots = 12
+  Abs = TRUE
   Lean = TRUE
   Vocab = "all"
 INIT Init
